@@ -1,7 +1,113 @@
-(* C19 -- property theorems only: each is closed by [exact] of a lemma proved elsewhere. *)
-From Coq Require Import List Arith.
-From Muscle Require Import Conc.TPool Conc.TPoolLemmas.
+(* C19 -- property theorems only: each is closed by [exact] of a lemma proved elsewhere (Conc/TPoolProofs.v);
+   plus non-vacuity examples (concrete runs of the model that satisfy the theorems' premises). *)
+From Coq Require Import List Arith Bool.
+From Muscle Require Import Conc.TPool Conc.TPoolLemmas Conc.TPoolInv Conc.TPoolStep Conc.TPoolTrace Conc.TPoolProofs.
+Import ListNotations.
 
-Theorem C19_tget_tset_same : forall V (k : nat) (v : V) t, tget k (tset k v t) = Some v.
-Proof. exact tget_tset_same. Qed.
-Print Assumptions C19_tget_tset_same.
+(* Every Message handed to a handler was accepted before, each at most once and in submission order (the handled
+   sequence is a prefix of the accepted sequence); at most the last one is still inside its handler; and until
+   Shutdown() has run nothing is lost: accepted = returned-from-handler ++ what the pool still holds, in order. *)
+Theorem C19_pool_exactly_once_in_order : forall n ls s tr, run (init n) ls = Some (s, tr) -> forall c,
+  (exists rest, entered tr c ++ rest = submitted tr c) /\
+  (exists cur, entered tr c = exited tr c ++ cur /\ length cur <= 1) /\
+  (s_sd s <> SdDone -> submitted tr c = exited tr c ++ queued s c).
+Proof. exact pool_exactly_once_in_order. Qed.
+Print Assumptions C19_pool_exactly_once_in_order.
+
+(* One client's handler calls never overlap (in the trace: a call of client c begins only when none is open and the
+   call that returns is the open one; in the state: no two pool threads have the same _currentClient); and never more
+   than _maxThreadCount threads are active. *)
+Theorem C19_pool_client_serial : forall n ls s tr, run (init n) ls = Some (s, tr) ->
+  (forall c, serial tr c = true) /\
+  (forall t1 t2 h1 h2 c, tget t1 (s_thr s) = Some h1 -> tget t2 (s_thr s) = Some h2 ->
+                         th_client h1 = Some c -> th_client h2 = Some c -> t1 = t2) /\
+  length (s_active s) <= s_max s.
+Proof. exact pool_client_serial. Qed.
+Print Assumptions C19_pool_client_serial.
+
+(* No idle thread, and no thread that could still be created, while a registered client that is not being handled has
+   queued Messages: then all _maxThreadCount threads are active, each working for another client. *)
+Theorem C19_pool_work_conserving : forall n ls s tr, run (init n) ls = Some (s, tr) -> s_shut s = false ->
+  forall c, tget c (s_reg s) = Some false -> qof (s_pend s) c ++ qof (s_defer s) c <> [] ->
+  s_avail s = [] /\ length (s_active s) = s_max s /\
+  forall t, In t (s_active s) -> exists h c', tget t (s_thr s) = Some h /\ th_client h = Some c' /\ c' <> c.
+Proof. exact pool_work_conserving. Qed.
+Print Assumptions C19_pool_work_conserving.
+
+(* UnregisterClient(): the client sits in _waitingForCompletion exactly while it is blocked and not notified; while so,
+   something of it is outstanding (being handled, pending or deferred); once notified (or when it did not have to
+   wait) nothing of it is outstanding and, unless Shutdown() did the waking, everything it had accepted was handled;
+   SetThreadPool(NULL) returns only then. *)
+Theorem C19_unregister_waits : forall n ls s tr, run (init n) ls = Some (s, tr) -> forall c,
+  (In c (s_wait s) <-> tget c (s_unreg s) = Some (UWaiting false)) /\
+  (tget c (s_unreg s) = Some (UWaiting false) -> outstanding s c = true) /\
+  (forall u, tget c (s_unreg s) = Some u -> u <> UWaiting false ->
+             outstanding s c = false /\ (s_sd s <> SdDone -> exited tr c = submitted tr c /\ worker s c = None)) /\
+  (forall s' ev, step s (LUnregEnd c) = Some (s', ev) -> s_sd s <> SdDone -> exited tr c = submitted tr c).
+Proof. exact unregister_waits. Qed.
+Print Assumptions C19_unregister_waits.
+
+(* The pool never blocks outstanding work (safety form of "every accepted Message is eventually handled" and of "the
+   wake-up of a blocked UnregisterClient() always comes"): some pool thread can take a step. *)
+Theorem C19_pool_no_stuck : forall n ls s tr, run (init n) ls = Some (s, tr) -> s_shut s = false -> 1 <= s_max s ->
+  forall c, outstanding s c = true -> thread_can_move s.
+Proof. exact pool_no_stuck. Qed.
+Print Assumptions C19_pool_no_stuck.
+
+(* Shutdown() cannot deadlock: while it is in progress a transition that lowers [sd_measure] is enabled (its own next
+   step, or a step of the pool thread it is joining) and no transition of anybody raises it. *)
+Theorem C19_shutdown_no_deadlock : forall n ls s tr, run (init n) ls = Some (s, tr) -> s_sd s <> SdNone -> s_sd s <> SdDone ->
+  (exists l s' ev, step s l = Some (s', ev) /\ sd_measure s' < sd_measure s) /\
+  (forall l s' ev, step s l = Some (s', ev) -> sd_measure s' <= sd_measure s).
+Proof. exact shutdown_no_deadlock. Qed.
+Print Assumptions C19_shutdown_no_deadlock.
+
+(* None of the MASSERTs of ThreadPool.cpp can fire. *)
+Theorem C19_pool_no_assert : forall n ls s tr, run (init n) ls = Some (s, tr) -> s_bad s = false.
+Proof. exact pool_no_assert. Qed.
+Print Assumptions C19_pool_no_assert.
+
+(* ---------------------------------------------------------------- non-vacuity *)
+
+(* pool of 2, three clients: two run in parallel on two threads, the third waits -- the premises of
+   C19_pool_work_conserving hold (and its conclusion is visible) *)
+Example ex_work_conserving_premises :
+  exists s tr, run (init 2) [LRegister 0; LRegister 1; LRegister 2; LSubmit 0 1; LSubmit 1 2; LSubmit 2 3; LEnter 0; LEnter 1] = Some (s, tr) /\
+               s_shut s = false /\ tget 2 (s_reg s) = Some false /\ qof (s_pend s) 2 ++ qof (s_defer s) 2 = [3] /\
+               s_active s = [0; 1] /\ entered tr 0 = [1] /\ entered tr 1 = [2].
+Proof. eexists. eexists. split; [vm_compute; reflexivity|]. vm_compute. repeat split. Qed.
+
+(* a submission that races with the running handler is deferred, promoted when the batch finishes, and handled next, in order *)
+Example ex_deferred_promoted :
+  exists s tr, run (init 1) [LRegister 0; LSubmit 0 1; LEnter 0; LSubmit 0 2; LSubmit 0 3; LExit 0; LFinish 0; LEnter 0; LExit 0; LEnter 0] = Some (s, tr) /\
+               submitted tr 0 = [1; 2; 3] /\ exited tr 0 = [1; 2] /\ entered tr 0 = [1; 2; 3] /\ queued s 0 = [3] /\ serial tr 0 = true.
+Proof. eexists. eexists. split; [vm_compute; reflexivity|]. vm_compute. repeat split. Qed.
+
+(* a client blocked in UnregisterClient() (premise of the 2nd clause of C19_unregister_waits), with another client's work
+   in front of its own (pool of 1): it is woken only after its own Message was handled *)
+Example ex_unregister_blocked :
+  exists s tr, run (init 1) [LRegister 0; LRegister 1; LSubmit 1 7; LSubmit 0 1; LUnregBegin 0] = Some (s, tr) /\
+               tget 0 (s_unreg s) = Some (UWaiting false) /\ In 0 (s_wait s) /\ outstanding s 0 = true /\ s_shut s = false /\ 1 <= s_max s.
+Proof. eexists. eexists. split; [vm_compute; reflexivity|]. vm_compute. repeat split; auto. Qed.
+
+Example ex_unregister_returns :
+  exists s tr s' ev,
+    run (init 1) [LRegister 0; LRegister 1; LSubmit 1 7; LSubmit 0 1; LUnregBegin 0; LEnter 0; LExit 0; LFinish 0;
+                  LEnter 0; LExit 0; LFinish 0; LUnregWake 0] = Some (s, tr) /\
+    tget 0 (s_unreg s) = Some UFinal /\ step s (LUnregEnd 0) = Some (s', ev) /\ s_sd s <> SdDone /\
+    exited tr 0 = [1] /\ submitted tr 0 = [1] /\ ev = [EUnregReturn 0].
+Proof. eexists. eexists. eexists. eexists. split; [vm_compute; reflexivity|]. vm_compute. repeat split; discriminate. Qed.
+
+(* Shutdown() in progress with a batch still running (premises of C19_shutdown_no_deadlock) *)
+Example ex_shutdown_in_progress :
+  exists s tr, run (init 2) [LRegister 0; LSubmit 0 1; LSubmit 0 2; LEnter 0; LShutBegin; LShutSwap; LShutSwap] = Some (s, tr) /\
+               s_sd s = SdJoinActive [0] true /\ sd_measure s = 8.
+Proof. eexists. eexists. split; [vm_compute; reflexivity|]. vm_compute. repeat split. Qed.
+
+(* ... and it runs to completion, waking a blocked UnregisterClient(); what was still queued is dropped (the boundary of
+   "exactly once": C19_pool_exactly_once_in_order's third clause is stated for s_sd <> SdDone) *)
+Example ex_shutdown_completes :
+  exists s tr, run (init 1) [LRegister 0; LRegister 1; LSubmit 0 1; LSubmit 1 2; LUnregBegin 1; LEnter 0; LShutBegin; LShutSwap; LShutSwap;
+                             LExit 0; LFinish 0; LShutJoin; LShutSwap; LShutSwap; LShutEnd; LUnregWake 1; LUnregEnd 1] = Some (s, tr) /\
+               s_sd s = SdDone /\ submitted tr 1 = [2] /\ exited tr 1 = [] /\ exited tr 0 = [1].
+Proof. eexists. eexists. split; [vm_compute; reflexivity|]. vm_compute. repeat split. Qed.
